@@ -43,6 +43,7 @@ type vpTransport struct {
 	clientGone  bool // DATA writes to this connection block until it is closed (a client that stopped reading)
 	isWS        bool // handed out by the NewWS stub: one ReadPacket = one websocket message
 	pauseAt     int  // 1+index of the packet before which the client stays silent for a long time (0: never)
+	countOverlaps bool // keep the two counters below
 	inflight    int  // WritePacket calls in progress
 	closedCh    chan struct{}
 	overlaps    int  // times a WritePacket call began while another was in progress (one writer at a time!)
@@ -80,17 +81,21 @@ func (t *vpTransport) ReadPacket() (int, []byte, error) {
 }
 
 func (t *vpTransport) WritePacket(b []byte) (int, error) {
-	vpMu.Lock()
-	t.inflight++
-	if t.inflight > 1 {
-		t.overlaps++
-	}
-	vpMu.Unlock()
-	defer func() {
+	if t.countOverlaps {
+		// (only on request: the bookkeeping synchronises the writers with each other, which would hide an
+		// unsynchronised pair of writes from the race detector in the native replay of the lockset harnesses)
 		vpMu.Lock()
-		t.inflight--
+		t.inflight++
+		if t.inflight > 1 {
+			t.overlaps++
+		}
 		vpMu.Unlock()
-	}()
+		defer func() {
+			vpMu.Lock()
+			t.inflight--
+			vpMu.Unlock()
+		}()
+	}
 	c := make([]byte, len(b))
 	copy(c, b)
 	if t.clientGone && len(b) >= 2 && b[0] == 0xA && b[1] == 0 {
